@@ -95,7 +95,7 @@ func genCase(t *rapid.T) Case {
 	var c Case
 	n := rapid.IntRange(2, 25).Draw(t, "n")
 	c.Transport = rapid.SampledFrom([]string{"unix", "unix", "unix", "tcp", "tcps", "tcps"}).Draw(t, "transport")
-	kinds := []string{"frame", "frame", "frame", "frame", "reg", "reg", "reg", "dirinfo", "flood", "halfframe", "terminate", "unregister", "regburst", "multiflood", "postflood", "strangeconn", "badauth", "badauth"}
+	kinds := []string{"frame", "frame", "frame", "frame", "reg", "reg", "reg", "dirinfo", "flood", "halfframe", "terminate", "unregister", "regburst", "multiflood", "postflood", "strangeconn", "badauth", "badauth", "regmany"}
 	if vt.Thorough() {
 		kinds = append(kinds, "floodnoread")
 	}
@@ -149,6 +149,13 @@ func genCase(t *rapid.T) Case {
 			op.Stall = rapid.SampledFrom([]int{0, 5000, 30000}).Draw(t, "pstall")
 		case "strangeconn":
 			op.N = rapid.IntRange(0, 11).Draw(t, "strange")
+		case "regmany":
+			// thousands of registrations with identifiers of their own, from a
+			// connection which stays (whatever the object keeps per subscriber,
+			// it keeps it for everybody)
+			op.Svc = rapid.SampledFrom([]string{"dir", "dir", "bomb", "pong"}).Draw(t, "msvc")
+			op.Obj = 0
+			op.N = rapid.SampledFrom([]int{300, 4200, 4200}).Draw(t, "manyregs")
 		case "badauth":
 			// authenticate requests (the authentication service serves every
 			// connection) which are refused, or whose capability map holds values
@@ -212,6 +219,8 @@ func (w *world) objID(op Op) uint32 {
 	}
 	return 0x7ffffff1
 }
+
+var probeHandler uint64
 
 // probeAll checks from a fresh connection that every object the model says
 // exists answers, and that the directory lists what the model lists.
@@ -279,6 +288,25 @@ func (w *world) probeAll(when string) error {
 			}
 		}
 	}
+	// serving the others includes their subscriptions: the fresh client registers
+	// for a signal of each main object and leaves again
+	for _, sb := range []struct {
+		name     string
+		svc, sig uint32
+	}{{"directory", 1, 106}, {"pong", w.pongID, 102}, {"bomb", w.bombID, 100}} {
+		probeHandler++
+		b := binary.LittleEndian.AppendUint32(nil, 1)
+		b = binary.LittleEndian.AppendUint32(b, sb.sig)
+		b = binary.LittleEndian.AppendUint64(b, 0x7000000000000000+probeHandler)
+		r, ok := f.CallWait(sb.svc, 1, 0, b, bound)
+		if !ok {
+			return vt.Violationf("C12:object-unresponsive:"+sb.name, "%s: registerEvent on %s got no answer within %v", when, sb.name, bound)
+		}
+		if r.Type != netkit.Reply {
+			return vt.Violationf("C12:subscription-refused:"+sb.name, "%s: a fresh client cannot subscribe to signal %d of %s: %s", when, sb.sig, sb.name, netkit.ErrorText(r.Payload))
+		}
+		f.CallWait(sb.svc, 1, 1, b, bound)
+	}
 	for id, state := range w.terminated {
 		if state != "yes" {
 			continue
@@ -345,6 +373,7 @@ func checkCase(c Case) error {
 	}
 	defer h.Close()
 	malformedReached, repeatedSub, floods := 0, 0, 0
+	manyDone := false
 	regs := map[string]int{}
 	short := 2 * time.Second
 	for i, op := range c.Ops {
@@ -403,6 +432,28 @@ func checkCase(c Case) error {
 				}
 				conn.Close()
 			}
+		case "regmany":
+			if manyDone {
+				continue // once per case: every event is written to each of them
+			}
+			manyDone = true
+			sig := map[string]uint32{"dir": 106, "bomb": 100, "pong": 102}[op.Svc]
+			mc, err := netkit.Dial(env.Addr)
+			if err != nil || !mc.Authenticate("u", "t", bound) {
+				continue
+			}
+			defer mc.Close()
+			for k := 0; k < op.N; k++ {
+				b := binary.LittleEndian.AppendUint32(nil, 1)
+				b = binary.LittleEndian.AppendUint32(b, sig)
+				b = binary.LittleEndian.AppendUint64(b, uint64(5000000+k))
+				if k%6 == 5 || k == op.N-1 { // (the server queues ten messages per connection)
+					mc.CallWait(sid, 1, 0, b, short)
+				} else {
+					mc.Send(netkit.Frame{Type: netkit.Call, ID: mc.NextID(), Service: sid, Object: 1, Action: 0, Payload: b})
+				}
+			}
+			vt.Label("thousands-of-registrations-from-one-connection")
 		case "badauth":
 			entries := map[string]ref.Dyn{"ClientServerSocket": {T: ref.Scalar(ref.KBool), V: true}, "auth_user": netkit.Str("u"), "auth_token": netkit.Str("t")}
 			switch op.PKind {
